@@ -228,20 +228,23 @@ section chain
 variable {cfg : Cfg} (ok : CfgOK cfg) {fwd : Fwd} {n : Nat} (hs : Safe cfg fwd n) (hc : CntSafe cfg fwd n)
 include ok hs hc
 
-theorem removeModule_cnt2 {s : State} (h : Good cfg s) {x : Nat} (hx : CntEx x s) (m : Module) (hm : s.find x = some m)
-    (hcl : m.closed = false) (hb : 2 * live s ≤ n) : Cnt (removeModule cfg fwd s x) := by
-  unfold removeModule
-  simp only [hm]
-  obtain ⟨h3, hl3, _, _, _⟩ := removePrep_good h x m hm hcl
-  have := hc (removePrep s x m) (closedFrame cfg { m with connected := false }) h3 (removePrep_cnt hx m)
-    (by rw [need_closed cfg ok]; omega)
-  exact cnt_dropMod this x
-
 theorem logAt_cnt2 (lvl : Nat) {s : State} (h : Good cfg s) (hcn : Cnt s) (hb : 2 * live s + 1 ≤ n) :
     Cnt (logAt cfg fwd lvl s) := by
   unfold logAt; split
   · exact hc s _ h hcn (by rw [need_log cfg ok]; exact hb)
   · exact hcn
+
+theorem removeModule_cnt2 {s : State} (h : Good cfg s) {x : Nat} (hx : CntEx x s) (m : Module) (hm : s.find x = some m)
+    (hcl : m.closed = false) (hb : 2 * live s ≤ n) : Cnt (removeModule cfg fwd s x) := by
+  unfold removeModule
+  simp only [hm]
+  obtain ⟨h3, hl3, _, _, _⟩ := removePrep_good h x m hm hcl
+  obtain ⟨g3l, st3l⟩ := logAt_safe ok hs 10 h3 (by omega)
+  have hl3l := st3l.live
+  have c3l := logAt_cnt2 ok hs hc 10 h3 (removePrep_cnt hx m) (by omega)
+  have := hc (logAt cfg fwd 10 (removePrep s x m)) (closedFrame cfg { m with connected := false }) g3l c3l
+    (by rw [need_closed cfg ok]; omega)
+  exact cnt_dropMod this x
 
 theorem failedMsg_cnt2 {s : State} (h : Good cfg s) (hcn : Cnt s) (d : Int) (f : Frame)
     (hb : 2 * live s + gcost cfg f ≤ n) : Cnt (failedMsg cfg fwd s d f) := by
@@ -422,6 +425,17 @@ theorem setReq_cnt (cfg : Cfg) (buf : List Nat) (h : Hdr) (x : Module) :
     (setReq cfg buf h x).closed = x.closed ∧ (setReq cfg buf h x).msgCount = x.msgCount := by
   unfold setReq; split <;> exact ⟨rfl, rfl⟩
 
+theorem t2_clashLoop (me : Module) : ∀ (os : List Module) {s : State}, Top2 cfg s → Top2 cfg (clashLoop cfg me os s).1
+  | [], _, h => h
+  | o :: rest, s, h => by
+    unfold clashLoop
+    split
+    · exact h
+    · apply t2_clashLoop me rest
+      split
+      · exact h
+      · exact t2_log ok hfuel h 10
+
 theorem t2_connect {s : State} (h : Top2 cfg s) (u : Nat) (hd : Hdr) : Top2 cfg (connectModule cfg s u hd).1 := by
   unfold connectModule
   dsimp only
@@ -438,9 +452,15 @@ theorem t2_connect {s : State} (h : Top2 cfg s) (u : Nat) (hd : Hdr) : Top2 cfg 
       split
       · split
         · exact t2_remove ok hfuel (t2_log ok hfuel h1 40) u
-        · split
-          · exact t2_remove ok hfuel (t2_log ok hfuel h1 40) u
-          · exact t2_same ok hfuel (t2_upd ok hfuel h1 u (fun m => { m with connected := true })
+        · have hl := t2_clashLoop ok hfuel (setAll cfg s.buf hd nm (lookupMod s u))
+            ((s.upd u (setAll cfg s.buf hd nm)).mods.filter (·.uid != u)) h1
+          generalize clashLoop cfg (setAll cfg s.buf hd nm (lookupMod s u))
+            ((s.upd u (setAll cfg s.buf hd nm)).mods.filter (·.uid != u)) (s.upd u (setAll cfg s.buf hd nm)) = r at hl
+          obtain ⟨s2, cl⟩ := r
+          dsimp only at hl ⊢
+          split
+          · exact t2_remove ok hfuel (t2_log ok hfuel hl 40) u
+          · exact t2_same ok hfuel (t2_upd ok hfuel hl u (fun m => { m with connected := true })
               (fun _ => rfl) (fun _ => rfl) (fun _ => rfl) (fun _ => rfl)) _ rfl rfl rfl rfl rfl
       · split
         · exact t2_remove ok hfuel (t2_log ok hfuel h1 40) u
@@ -450,10 +470,13 @@ theorem t2_connect {s : State} (h : Top2 cfg s) (u : Nat) (hd : Hdr) : Top2 cfg 
           exact t2_same ok hfuel (t2_upd ok hfuel h2 u (fun m => { m with modId := id, connected := true })
             (fun _ => rfl) (fun _ => rfl) (fun _ => rfl) (fun _ => rfl)) _ rfl rfl rfl rfl rfl
 
+theorem t2_infoOf {s : State} (h : Top2 cfg s) (m : Module) : Top2 cfg (infoOf cfg s m) := by
+  unfold infoOf; exact t2_fwd ok hfuel (t2_log ok hfuel h 10) _
+
 theorem t2_sendInfo {s : State} (h : Top2 cfg s) (u : Nat) : Top2 cfg (sendInfo cfg s u) := by
   unfold sendInfo; split
   · exact h
-  · exact t2_fwd ok hfuel h _
+  · exact t2_infoOf ok hfuel h _
 
 omit ok hfuel in
 theorem cnt_setSubs {s : State} (h : Cnt s) (i : List (Int × List Nat)) (u : Nat) (l : List Int) :
@@ -461,10 +484,26 @@ theorem cnt_setSubs {s : State} (h : Cnt s) (i : List (Int × List Nat)) (u : Na
   have h1 : Cnt ({ s with idx := i } : State) := cnt_misc h _ rfl rfl rfl
   exact cnt_upd h1 u (fun m => { m with subs := l }) (fun _ => rfl) (fun _ hc => ⟨hc, rfl⟩)
 
+theorem t2_addSubCore {s : State} (h : Top2 cfg s) (u : Nat) (t : Int) (m : Module) (hm : s.find u = some m) :
+    Top2 cfg (addSubCore cfg s u t) := by
+  refine ⟨top_addSubCore ok hfuel h.top u t m hm, ?_⟩
+  unfold addSubCore; dsimp only
+  split
+  · exact cnt_setSubs h.cnt _ u _
+  · split
+    · exact h.cnt
+    · exact cnt_setSubs h.cnt _ u _
+
 theorem t2_addSub {s : State} (h : Top2 cfg s) (u : Nat) (t : Int) (m : Module) (hm : s.find u = some m) :
     Top2 cfg (addSub cfg s u t) := by
-  refine ⟨top_addSub ok hfuel h.top u t m hm, ?_⟩
-  unfold addSub; dsimp only
+  unfold addSub; split
+  · exact t2_log ok hfuel (t2_addSubCore ok hfuel h u t m hm) 10
+  · exact t2_addSubCore ok hfuel h u t m hm
+
+theorem t2_removeSubCore {s : State} (h : Top2 cfg s) (u : Nat) (t : Int) (m : Module) (hm : s.find u = some m) :
+    Top2 cfg (removeSubCore cfg s u t) := by
+  refine ⟨top_removeSubCore ok hfuel h.top u t m hm, ?_⟩
+  unfold removeSubCore; dsimp only
   split
   · exact cnt_setSubs h.cnt _ u _
   · split
@@ -473,13 +512,9 @@ theorem t2_addSub {s : State} (h : Top2 cfg s) (u : Nat) (t : Int) (m : Module) 
 
 theorem t2_removeSub {s : State} (h : Top2 cfg s) (u : Nat) (t : Int) (m : Module) (hm : s.find u = some m) :
     Top2 cfg (removeSub cfg s u t) := by
-  refine ⟨top_removeSub ok hfuel h.top u t m hm, ?_⟩
-  unfold removeSub; dsimp only
-  split
-  · exact cnt_setSubs h.cnt _ u _
-  · split
-    · exact h.cnt
-    · exact cnt_setSubs h.cnt _ u _
+  unfold removeSub; split
+  · exact t2_log ok hfuel (t2_removeSubCore ok hfuel h u t m hm) 10
+  · exact t2_removeSubCore ok hfuel h u t m hm
 
 theorem t2_process {s : State} (h : Top2 cfg s) (u : Nat) (m : Module) (hm : s.find u = some m) (hd : Hdr) :
     Top2 cfg (processMessage cfg s u hd) := by
@@ -491,7 +526,7 @@ theorem t2_process {s : State} (h : Top2 cfg s) (u : Nat) (m : Module) (hm : s.f
     obtain ⟨s1, okb⟩ := r
     simp only at hc ⊢
     split
-    · exact t2_log ok hfuel (t2_fwd ok hfuel (t2_sendAck ok hfuel hc u) _) 20
+    · exact t2_log ok hfuel (t2_infoOf ok hfuel (t2_sendAck ok hfuel hc u) _) 20
     · exact hc
   · split
     · exact t2_log ok hfuel (t2_remove ok hfuel h u) 20
@@ -503,12 +538,12 @@ theorem t2_process {s : State} (h : Top2 cfg s) (u : Nat) (m : Module) (hm : s.f
           · split
             · exact t2_remove ok hfuel (t2_log ok hfuel h 40) u
             · rename_i nm _
-              exact t2_sendInfo ok hfuel (t2_log ok hfuel
-                (t2_upd ok hfuel h u (fun m => { m with name := nm }) (fun _ => rfl) (fun _ => rfl) (fun _ => rfl) (fun _ => rfl)) 20) u
+              exact t2_infoOf ok hfuel (t2_log ok hfuel
+                (t2_upd ok hfuel h u (fun m => { m with name := nm }) (fun _ => rfl) (fun _ => rfl) (fun _ => rfl) (fun _ => rfl)) 20) _
           · split
             · exact t2_sendInfo ok hfuel (t2_upd ok hfuel h u (fun m => { m with pid := bufI32 s.buf 0 })
                 (fun _ => rfl) (fun _ => rfl) (fun _ => rfl) (fun _ => rfl)) u
-            · exact t2_fwd ok hfuel h _
+            · exact t2_fwd ok hfuel (t2_log ok hfuel h 10) _
 
 theorem t2_readOne {s : State} (h : Top2 cfg s) (r : Read) : Top2 cfg (readOne cfg s r) := by
   unfold readOne
@@ -547,7 +582,7 @@ theorem t2_foldl_fwd : ∀ (fs : List Frame) {s : State}, Top2 cfg s → Top2 cf
 
 theorem t2_infoAll : ∀ (ms : List Module) {s : State}, Top2 cfg s → Top2 cfg (infoAll cfg ms s)
   | [], _, h => h
-  | m :: rest, _, h => by unfold infoAll; exact t2_infoAll rest (t2_fwd ok hfuel h _)
+  | m :: rest, _, h => by unfold infoAll; exact t2_infoAll rest (t2_infoOf ok hfuel h _)
 
 theorem t2_accept {s : State} (h : Top2 cfg s) : Top2 cfg (acceptStep cfg s) := by
   refine ⟨top_accept ok hfuel h.top, ?_⟩
@@ -611,16 +646,20 @@ theorem t2_ticks {s : State} (h : Top2 cfg s) : Top2 cfg (ticks cfg s) := by
     split
     · unfold sendTraffic; dsimp only
       have a1 : Top2 cfg ({ s1 with inTraffic := true } : State) := t2_same ok hfuel h1 _ rfl rfl rfl rfl rfl
-      have a2 := t2_foldl_fwd ok hfuel (trafficFrames cfg s1.trafficSeq s1.traffic) a1
+      have a1' := t2_log ok hfuel a1 10
+      generalize logAt cfg (fwdTop cfg) 10 ({ s1 with inTraffic := true } : State) = s1' at a1'
+      have a2 := t2_foldl_fwd ok hfuel (trafficFrames cfg s1'.trafficSeq s1'.traffic) a1'
       exact t2_same ok hfuel a2 _ rfl rfl rfl rfl rfl
     · exact h1
   generalize (if s1.now - s1.tTraffic > 1000 then sendTraffic cfg s1 else s1) = s2 at h2 ⊢
   split
   · unfold sendActive; dsimp only
-    have a1 := t2_infoAll ok hfuel s2.mods h2
+    have a0 := t2_log ok hfuel h2 10
+    generalize logAt cfg (fwdTop cfg) 10 s2 = s3 at a0
+    have a1 := t2_infoAll ok hfuel s3.mods a0
     have a2 := t2_fwd ok hfuel a1 (mgrFrame cfg.mtActive 0 cfg.szActive
-      (Body.active (((infoAll cfg s2.mods s2).mods.length : Int) - 1) (trimZeros ((s2.mods.take cfg.maxActive).map (·.modId)))
-        (trimZeros ((s2.mods.take cfg.maxActive).map (·.pid)))))
+      (Body.active (((infoAll cfg s3.mods s3).mods.length : Int) - 1) (trimZeros ((s3.mods.take cfg.maxActive).map (·.modId)))
+        (trimZeros ((s3.mods.take cfg.maxActive).map (·.pid)))))
     exact t2_same ok hfuel a2 _ rfl rfl rfl rfl rfl
   · exact h2
 
